@@ -4,13 +4,13 @@
 set -e
 cd "$(dirname "$0")"
 export PIP_NO_INDEX=1 PIP_DISABLE_PIP_VERSION_CHECK=1
-if [ ! -x .venv/bin/python ] || ! .venv/bin/python -c "import z3, jsonschema, cogent3" 2>/dev/null; then
+if [ ! -x .venv/bin/python ] || ! .venv/bin/python -c "import z3, jsonschema, cogent3, sympy" 2>/dev/null; then
   rm -rf .venv
   /venv/bin/python -m venv .venv
-  .venv/bin/pip install -q --no-index --find-links /opt/veriftools/wheels z3-solver jsonschema >/dev/null
+  .venv/bin/pip install -q --no-index --find-links /opt/veriftools/wheels z3-solver jsonschema sympy >/dev/null
   .venv/bin/pip install -q --no-index --find-links /opt/veriftools/wheels crosshair-tool icontract deal >/dev/null 2>&1 || true
   SP=$(.venv/bin/python -c "import site; print(site.getsitepackages()[0])")
   echo "import site; site.addsitedir('/venv/lib/python3.12/site-packages')" > "$SP/zz_repo_overlay.pth"
 fi
-.venv/bin/python -c "import z3, jsonschema, cogent3, numpy; print('setup ok: z3', z3.get_version_string(), 'cogent3', cogent3.__file__)"
+.venv/bin/python -c "import z3, jsonschema, cogent3, numpy, sympy; print('setup ok: z3', z3.get_version_string(), 'cogent3', cogent3.__file__)"
 mkdir -p .work evidence replays
